@@ -299,6 +299,7 @@ class Result:
         self.pruned = 0
         self.outside_claim = 0
         self.state_checks = 0
+        self.known = {}
         self.wall = 0.0
         self.extra = {}
 
@@ -320,6 +321,7 @@ class Result:
             "pruned_after_violation": self.pruned,
             "outside_claim": self.outside_claim,
             "state_oracle_evaluations": self.state_checks,
+            "known": self.known,
             "wall_s": round(self.wall, 3),
             "extra": self.extra,
         }
@@ -335,8 +337,10 @@ def _history(parents, sid):
     return out
 
 
-def explore(system: System, cfg, props, max_violations=20, state_cap=None):
-    """BFS over the real implementation. Returns a Result."""
+def explore(system: System, cfg, props, max_violations=20, state_cap=None, known=None):
+    """BFS over the real implementation. Returns a Result.
+    known(violation) -> finding id or None: violations matching an OPEN known finding are counted per
+    finding (first history kept) and do not count towards max_violations; the state behind them is not expanded."""
     t0 = time.time()
     res = Result(system.name, cfg)
     props = set(props)
@@ -404,10 +408,19 @@ def explore(system: System, cfg, props, max_violations=20, state_cap=None):
                         res.state_checks += 1
                 if viols:
                     hist = _history(parents, sid) + [[ev, choices]]
+                    fresh = 0
                     for v in viols:
+                        fid = known(v) if known else None
+                        if fid is not None:
+                            ent = res.known.setdefault(fid, {"count": 0, "violation": v.to_json(), "history": hist})
+                            ent["count"] += 1
+                            continue
+                        fresh += 1
                         if len(res.violations) < max_violations:
                             res.violations.append((v, hist))
                     res.pruned += 1
+                    if not fresh:
+                        continue
                     if len(res.violations) >= max_violations:
                         res.caps.append(f"stopped_after_{max_violations}_violations")
                         closure = False
